@@ -527,6 +527,7 @@ func (p *forRangeStmt) RangeAssignThen(cb *CodeBuilder, pos token.Pos) {
 			if name == "_" {
 				continue
 			}
+			pkg.useName(name)
 			if scope.Insert(types.NewVar(token.NoPos, pkg.Types, name, typs[i])) != nil {
 				log.Panicln("TODO: variable already defined -", name)
 			}
